@@ -14,6 +14,7 @@ import AdaptixProofs.Lemmas.ThreadsCompile
 import AdaptixProofs.Lemmas.ThreadsTypedInv
 import AdaptixProofs.Lemmas.ThreadsSeq
 import AdaptixProofs.Lemmas.ThreadsAtomicCall
+import AdaptixProofs.Lemmas.ThreadsExt
 
 namespace Adaptix.Threads.C12
 
@@ -113,6 +114,20 @@ theorem every_result_is_the_unfolding (G : Graph) (fuel evalFuel : Nat) (reqs : 
     (hres : th.result = some res) : res = unfold G evalFuel th.depth th.ty :=
   ((typed_inv G fuel evalFuel reqs hwt σ).threads t th h).res res hres
 
+/-- **Every cached loader is the correct loader of its type, at any moment of any schedule and for every later
+    call**: whatever is in the loader cache after any schedule - put there by whichever thread won the race,
+    built from sub-loaders that other threads created, self-referencing through recursion stubs - computes, on
+    data of ANY depth `d` and with any fuel `n`, exactly the unfolding of the type it is cached for (the value
+    the type graph alone specifies; never `unbound`).  This is the full-strength form of
+    `cached_loaders_stay_callable` under the static check. -/
+theorem cached_loaders_compute_the_unfolding (G : Graph) (fuel evalFuel : Nat) (reqs : List (TyId × Nat))
+    (hwt : WellTyped G fuel reqs) (σ : List Tid) (e : TyId × Ref) (n d : Nat)
+    (h : e ∈ (run (retort G .byId fuel evalFuel) (init reqs) σ).loaderCache) :
+    eval (run (retort G .byId fuel evalFuel) (init reqs) σ).heap
+         (run (retort G .byId fuel evalFuel) (init reqs) σ).stubs n d e.2 = unfold G n d e.1 :=
+  eval_unfold (safe_inv G fuel evalFuel reqs σ) (typed_inv G fuel evalFuel reqs hwt σ) n d e.2 e.1
+    ((safe_inv G fuel evalFuel reqs σ).lc e h) ((typed_inv G fuel evalFuel reqs hwt σ).lc e h)
+
 /-- results of a complete schedule -/
 theorem complete_results (G : Graph) (fuel evalFuel : Nat) (reqs : List (TyId × Nat))
     (hwt : WellTyped G fuel reqs) (σ : List Tid)
@@ -185,12 +200,57 @@ theorem all_schedules_safe (G : Graph) (fuel evalFuel : Nat) (reqs : List (TyId 
     exact le_seqBound _ reqs r (List.mem_of_getElem? hr)
 
 /-- **The call may be atomic in the model.**  Closures are immutable and stub targets only change from unbound
-    to bound (`Ext`, which every action establishes: it appends to the heap or the stub table, or binds an unbound
+    to bound (`Ext`; that every action and hence every continuation of a schedule establishes it is
+    `every_continuation_extends` below: an action appends to the heap or the stub table, or binds an unbound
     stub of the acting request), so a call that succeeds on the state at its start returns the same value on
     every later state: a real call that reads the stubs later, one at a time, cannot see anything else. -/
 theorem successful_call_is_stable (s s' : State) (e : Ext s s') (n d : Nat) (r : Ref) (o : List Nat)
     (h : eval s.heap s.stubs n d r = .ok o) : eval s'.heap s'.stubs n d r = .ok o :=
   eval_ok_stable e n d r o h
+
+/-- `run` over a concatenated schedule -/
+theorem run_append (sys : Sys) (σ σ' : List Tid) : ∀ s : State, run sys s (σ ++ σ') = run sys (run sys s σ) σ' := by
+  induction σ with
+  | nil => intro s; rfl
+  | cons t σ ih => intro s; exact ih (step sys s t)
+
+/-- **The premise of `successful_call_is_stable` holds along every run**: whatever the threads do after a
+    reachable state (any continuation `σ'` of any schedule `σ`), the later state extends the earlier one - the
+    heap has only grown, every stub keeps its location and owner, a bound stub is still bound to the same
+    target, completed requests are still completed.  (Under `Inv`: it is the invariant that guarantees that
+    `set_func` only ever hits a stub that is still unbound.) -/
+theorem every_continuation_extends (G : Graph) (fuel evalFuel : Nat) (reqs : List (TyId × Nat)) (σ σ' : List Tid) :
+    Ext (run (retort G .byId fuel evalFuel) (init reqs) σ) (run (retort G .byId fuel evalFuel) (init reqs) (σ ++ σ')) := by
+  rw [run_append]
+  exact run_ext (sys := retort G .byId fuel evalFuel) rfl σ' (safe_inv G fuel evalFuel reqs σ)
+
+/-- **A value a loader returns is returned at every later moment of the run**: if calling any reference `r`
+    (a cached loader, a loader just handed to a caller, any sub-loader) on data of any depth succeeds in the
+    state reached by a schedule `σ`, it returns the same value in the state reached by any continuation
+    `σ ++ σ'`, whatever the other threads have done in between.  Together with `every_result_is_the_unfolding`
+    this is "loaders obtained concurrently stay correct for later calls". -/
+theorem returned_value_is_stable (G : Graph) (fuel evalFuel : Nat) (reqs : List (TyId × Nat)) (σ σ' : List Tid)
+    (n d : Nat) (r : Ref) (o : List Nat)
+    (h : eval (run (retort G .byId fuel evalFuel) (init reqs) σ).heap
+              (run (retort G .byId fuel evalFuel) (init reqs) σ).stubs n d r = .ok o) :
+    eval (run (retort G .byId fuel evalFuel) (init reqs) (σ ++ σ')).heap
+         (run (retort G .byId fuel evalFuel) (init reqs) (σ ++ σ')).stubs n d r = .ok o :=
+  successful_call_is_stable _ _ (every_continuation_extends G fuel evalFuel reqs σ σ') n d r o h
+
+/-- **The turn hypothesis `hturns` of `all_schedules_safe(_partial)` / `complete_results` is satisfiable** for
+    every system and every list of requests: the sequential schedule gives every thread enough turns.  (It is a
+    fairness condition: any schedule with at least as many occurrences of every thread satisfies it too - see
+    the interleaved witness below.) -/
+theorem enough_turns_witness (sys : Sys) (reqs : List (TyId × Nat)) :
+    ∀ (t : Tid) (r : TyId × Nat), reqs[t]? = some r →
+      stepBound sys r.1 ≤ (sequentialSchedule reqs.length (seqBound sys reqs)).count t := by
+  intro t r hr
+  have hlt : t < reqs.length := by
+    rcases Nat.lt_or_ge t reqs.length with h | h
+    · exact h
+    · rw [List.getElem?_eq_none h] at hr; cases hr
+  rw [count_sequentialSchedule hlt]
+  exact le_seqBound _ reqs r (List.mem_of_getElem? hr)
 
 /-! ### the unrepaired tree: stubs equal by location -/
 
@@ -240,6 +300,48 @@ example : WellTyped chainG 12 [(1, 3), (2, 5), (1, 0)] := by
 
 /-- non-vacuity of `every_thread_finishes`: the bound is reached by a real run -/
 example : allDone (run (retort chainG .byId 12 16) (init [(1, 3), (1, 3)]) badSchedule) = true := by
+  decide +kernel
+
+/-- strict alternation of two threads, 40 turns each -/
+def roundRobin : List Tid := (List.replicate 40 [0, 1]).flatten
+
+/-- **all hypotheses of `all_schedules_safe` hold together** on a non-degenerate instance: two threads racing on
+    the first request for the self-recursive `Chain`, a preemption after EVERY atomic action (`roundRobin`), the
+    static check `WellTyped` and the turn condition `hturns` - and the theorem then yields the concrete results -/
+example :
+    results (run (retort chainG .byId 12 16) (init [(1, 3), (1, 3)]) roundRobin) =
+      results (run (retort chainG .byId 12 16) (init [(1, 3), (1, 3)])
+        (sequentialSchedule 2 (seqBound (retort chainG .byId 12 16) [(1, 3), (1, 3)]))) := by
+  have hwt : WellTyped chainG 12 [(1, 3), (1, 3)] := by
+    intro r hr
+    simp only [List.mem_cons, List.mem_nil_iff, or_false, or_self] at hr
+    subst hr; decide +kernel
+  have hb : stepBound (retort chainG .byId 12 16) 1 ≤ roundRobin.count 0 ∧
+      stepBound (retort chainG .byId 12 16) 1 ≤ roundRobin.count 1 := by decide +kernel
+  have hturns : ∀ (t : Tid) (r : TyId × Nat), [((1 : TyId), (3 : Nat)), (1, 3)][t]? = some r →
+      stepBound (retort chainG .byId 12 16) r.1 ≤ roundRobin.count t := by
+    intro t r hr
+    match t, hr with
+    | 0, hr => simp at hr; subst hr; exact hb.1
+    | 1, hr => simp at hr; subst hr; exact hb.2
+    | t + 2, hr => simp at hr
+  exact (all_schedules_safe chainG 12 16 [(1, 3), (1, 3)] hwt roundRobin hturns).2.2
+
+/-- ... and the results are the non-degenerate ones (both threads load `Chain` to depth 3), the two threads
+    really interleave (thread 1 acts while thread 0 is in the middle of its request) -/
+example :
+    results (run (retort chainG .byId 12 16) (init [(1, 3), (1, 3)]) roundRobin) =
+      [some (unfold chainG 16 3 1), some (unfold chainG 16 3 1)] ∧
+    unfold chainG 16 3 1 = .ok [2, 3, 2, 3, 2, 3, 2, 3, 0, 0, 0, 0, 0, 0, 0] := by
+  decide +kernel
+
+/-- non-vacuity of `returned_value_is_stable`: after the 14 first actions of thread 0 the call cache holds the
+    (still unsealed) model loader, after the whole bad schedule the loader cache holds a loader whose call
+    succeeds - and it is the same value after any continuation -/
+example :
+    let s := run (retort chainG .byId 12 16) (init [(1, 3), (1, 3)]) badSchedule
+    s.loaderCache.length = 1 ∧ s.heap.length ≥ 2 ∧ s.stubs.length ≥ 1 ∧
+      ∀ e ∈ s.loaderCache, eval s.heap s.stubs 16 3 e.2 = unfold chainG 16 3 1 := by
   decide +kernel
 
 end Adaptix.Threads.C12
